@@ -64,6 +64,10 @@ type Script struct {
 	// called ShutdownDelayUS after the last producer returned.
 	Settle          bool
 	ShutdownDelayUS int
+	// SlackMS: slack of the timeout assertions on the stall-tolerant clock
+	// (0 = the default 2 s).  With a tight slack an item's wait is only judged
+	// when no scheduling stall was observed between its acceptance and its emission.
+	SlackMS int `json:",omitempty"`
 }
 
 const longTimeoutMS = 600000
@@ -225,6 +229,7 @@ func groupOf(keys []string, a *Arrival) (string, map[string][]string) {
 
 type batchRec struct {
 	at    time.Duration // vnow() at sink entry
+	stalls int64        // vstalls at sink entry
 	items []pitems.Item
 	count int // as the processor counts: records / spans / data points
 	md    map[string][]string
@@ -241,7 +246,7 @@ type sink struct {
 }
 
 func (k *sink) consume(ctx context.Context, v any) error {
-	rec := &batchRec{at: vnow(), items: sig.Items(v), count: sig.Count(v), md: map[string][]string{}}
+	rec := &batchRec{at: vnow(), stalls: vstalls.Load(), items: sig.Items(v), count: sig.Count(v), md: map[string][]string{}}
 	md := client.FromContext(ctx).Metadata
 	for key := range md.Keys() {
 		rec.md[key] = md.Get(key)
@@ -320,11 +325,15 @@ func build(s *Script, k *sink) (component.Component, consumeFn, *vt.Finding) {
 	panic("unknown signal " + s.Signal)
 }
 
-func slack() time.Duration {
-	if os.Getenv("VT_RACE") != "" {
-		return 6 * time.Second
+func (s *Script) slack() time.Duration {
+	d := 2 * time.Second
+	if s.SlackMS > 0 {
+		d = time.Duration(s.SlackMS) * time.Millisecond
 	}
-	return 2 * time.Second
+	if os.Getenv("VT_RACE") != "" {
+		d *= 3
+	}
+	return d
 }
 
 type arrRec struct {
@@ -336,6 +345,7 @@ type arrRec struct {
 	origin   map[int64]origin
 	err      error
 	returned time.Duration // vnow() when Consume returned
+	stalls   int64         // vstalls just before Consume was called
 }
 
 func run(s Script) (bool, string, *vt.Finding) { return runWith(cMain, s) }
@@ -411,6 +421,7 @@ func runInner(c *vt.C, s *Script) (nontrivial bool, f *vt.Finding) {
 				if !r.a.NoInfo {
 					ctx = client.NewContext(ctx, client.Info{Metadata: client.NewMetadata(r.a.MD)})
 				}
+				r.stalls = vstalls.Load()
 				r.err = consume(ctx, r.a.Data)
 				r.returned = vnow()
 			}
@@ -434,16 +445,17 @@ func runInner(c *vt.C, s *Script) (nontrivial bool, f *vt.Finding) {
 	hasTimer := s.TimeoutMS != 0 && s.Size != 0
 	if s.Settle {
 		var deadline time.Duration
+		var deadlineFn func() time.Duration
 		var cond func() bool // evaluated with k.mu held
 		var what, tsig string
 		switch {
 		case !hasTimer:
 			// timeout 0 ("sent immediately") or send_batch_size 0 ("size ignored, sent immediately")
-			deadline = lastReturn + slack()
+			deadline = lastReturn + s.slack()
 			cond = func() bool { return k.total >= acceptedTotal }
 			what, tsig = "with timeout=0 or send_batch_size=0 everything accepted is sent immediately", "immediate-flush/timing"
 		case s.TimeoutMS == longTimeoutMS:
-			deadline = lastReturn + slack()
+			deadline = lastReturn + s.slack()
 			cond = func() bool {
 				for g := range accepted {
 					if accepted[g]-k.emitted[g] >= s.Size {
@@ -454,7 +466,18 @@ func runInner(c *vt.C, s *Script) (nontrivial bool, f *vt.Finding) {
 			}
 			what, tsig = fmt.Sprintf(">= send_batch_size=%d items pending in a group must trigger a batch", s.Size), "size-flush/timing"
 		default:
-			deadline = lastReturn + time.Duration(s.TimeoutMS)*time.Millisecond + slack()
+			deadline = lastReturn + time.Duration(s.TimeoutMS)*time.Millisecond + s.slack()
+			if s.SlackMS > 0 {
+				stalls0 := vstalls.Load()
+				loose := lastReturn + time.Duration(s.TimeoutMS)*time.Millisecond + (&Script{}).slack()
+				tightDeadline := deadline
+				deadlineFn = func() time.Duration {
+					if vstalls.Load() != stalls0 {
+						return loose // a stall was observed while waiting: only the default slack is asserted
+					}
+					return tightDeadline
+				}
+			}
 			cond = func() bool { return k.total >= acceptedTotal }
 			what, tsig = fmt.Sprintf("pending items must be emitted within timeout=%dms", s.TimeoutMS), "timeout-flush/timing"
 		}
@@ -470,6 +493,9 @@ func runInner(c *vt.C, s *Script) (nontrivial bool, f *vt.Finding) {
 			k.mu.Unlock()
 			if ok {
 				break
+			}
+			if deadlineFn != nil {
+				deadline = deadlineFn()
 			}
 			if vnow() > deadline {
 				timing = vt.Failf(tsig, "%s; %v after the last Consume returned still pending: %s (size=%d max=%d timeout=%dms keys=%v)",
@@ -617,14 +643,36 @@ func runInner(c *vt.C, s *Script) (nontrivial bool, f *vt.Finding) {
 	}
 
 	// ---- timeliness of what was emitted (short timeout only; one-sided) ----
+	// "pending items are emitted no later than the timeout after the first of them
+	// arrived": judged per item, on the stall-tolerant clock.  With a tight slack
+	// (trickle scripts) an item is only judged against it when no scheduling stall
+	// was seen between the call that delivered it and the sink call that received
+	// it; the default slack applies in any case.
 	if hasTimer && s.TimeoutMS != longTimeoutMS {
-		lim := time.Duration(s.TimeoutMS)*time.Millisecond + slack()
+		tmo := time.Duration(s.TimeoutMS) * time.Millisecond
+		tight, loose := tmo+s.slack(), tmo+(&Script{}).slack()
+		disturbed := false
 		for bi, b := range batches {
 			for _, it := range b.items {
-				if r, ok := idArr[it.ID]; ok && r.err == nil && b.at-r.returned > lim {
-					return true, vt.Failf("timeout-flush/timing", "item id=%d was emitted in batch %d %v after its Consume returned (timeout %dms)", it.ID, bi, b.at-r.returned, s.TimeoutMS)
+				r, ok := idArr[it.ID]
+				if !ok || r.err != nil {
+					continue
+				}
+				w := b.at - r.returned
+				lim := tight
+				if s.SlackMS > 0 && b.stalls != r.stalls {
+					lim = loose
+					if w > tight {
+						disturbed = true
+					}
+				}
+				if w > lim {
+					return true, vt.Failf("timeout-flush/timing", "item id=%d (arrival %d of producer %d) was emitted in batch %d %v after its Consume returned, with timeout=%dms (slack %v, stall-tolerant clock, no stall observed in between; size=%d max=%d keys=%v)", it.ID, r.idx, r.prod, bi, w.Round(time.Millisecond), s.TimeoutMS, lim-tmo, s.Size, s.Max, s.Keys)
 				}
 			}
+		}
+		if disturbed {
+			c.Class("tight-timing-not-judged(stall-observed)")
 		}
 	}
 
